@@ -381,7 +381,7 @@ void genTops(Rng& rng, CaseSpec& cs, int nx, int ny, int nz, bool gaps) {
         if (g > 0) cs.gapped = true;
         tops[k * area + c] = tops[(k - 1) * area + c] + dz[(k - 1) * area + c] + g;
     }
-    if (gaps && !cs.gapped && nz > 1) { for (size_t c = 0; c < area; ++c) tops[area + c] += 2.5; cs.gapped = true; }
+    if (gaps && !cs.gapped && nz > 1) { for (size_t c = area; c < vol; ++c) tops[c] += 2.5; cs.gapped = true; }   // one gap below the top layer, everything deeper moves along
     // model
     std::vector<double> X(nx + 1, 0.0), Y(ny + 1, 0.0);
     for (int i = 0; i < nx; ++i) X[i + 1] = X[i] + dxv[i];
